@@ -40,6 +40,11 @@ def str_float(x=0.0):
     if isinstance(x, SymStr):
         if x.concrete():
             return builtins.float(x.plain())
+        # float() rejects any text holding a character outside the float-literal alphabet: if a *concrete*
+        # character already decides that, raise what float() raises; otherwise the token is outside the model.
+        for it in x.items:
+            if isinstance(it, str) and not (it.isspace() or it.isnumeric() or it in "+-.eE_infatyINFATY"):
+                raise ValueError("could not convert string to float")
         ex = Ctx.cur
         if ex is not None:
             ex.flag_error("float() of a string with symbolic characters")
